@@ -4,7 +4,7 @@
    passing check makes the shortcut return exactly what the general decoder returns; a failing check runs the general decoder. *)
 From Coq Require Import String NArith ZArith List.
 From Pq Require Import Base.Bytes Base.ListX Codec.Varint Codec.Hybrid Format.Phys Format.Meta Format.Page Impl.WLevels Impl.RPages Impl.RSelf
-                       Proofs.WChunkProofs Proofs.RGuardProofs.
+                       Impl.RCat Proofs.WChunkProofs Proofs.RGuardProofs.
 Import ListNotations.
 Open Scope N_scope.
 
@@ -43,3 +43,14 @@ Theorem C03_guards_hold_on_writer_pages : forall n rest nval g x,
   guard_def 1 n (wr_defs_nonull_v1 n ++ rest) = true /\ guard_idx nval (uleb_enc (2 * g + 1) ++ x) = true.
 Proof. exact guards_hold_on_writer. Qed.
 Print Assumptions C03_guards_hold_on_writer_pages.
+
+(* the v2 categorical fast path (read_data_page_v2 with use_cat; Impl/RCat.v cat_prefix / cat_tail): same statement on arbitrary bytes.
+   The byte copy over the codes array is taken only when the page has no NULL, the index width equals the item size of the codes
+   array and the byte counts agree (repaired: a full last group of a foreign page, or a wider codes array, took it wrongly). *)
+Theorem C03_selfmade_irrelevant_v2_cat_partial : forall decompress ak cd codec h usize csize payload n nn lv bw r,
+  RCat.cat_prefix decompress cd codec h usize csize payload = ROk (n, nn, lv, bw, r) -> nn <= n ->
+  (guard_idx (n - nn) r = true ->
+     exists hd out, uleb_dec r = Some (hd, out) /\ 0 < n - nn /\ bytes_ok out /\ (hd / 2) * 8 * (bw / 8) <= lenN out) ->
+  RCat.rd_page_v2_cat decompress true ak cd codec h usize csize payload = RCat.rd_page_v2_cat decompress false ak cd codec h usize csize payload.
+Proof. exact rd_page_v2_cat_selfmade_irrelevant. Qed.
+Print Assumptions C03_selfmade_irrelevant_v2_cat_partial.
